@@ -7,6 +7,7 @@
 From Coq Require Import List Arith ZArith Bool.
 Import ListNotations.
 From KV Require Import Model.Greedy Model.Kaisa Proofs.GreedyP Proofs.KaisaP.
+From KV Require Proofs.KaisaFloatP.
 
 Theorem grid_of_world : forall W p k, 0 < k -> W = k * p ->
   kcols W k = kcols_pk p k /\ krows W k = krows_pk p k.
@@ -67,6 +68,16 @@ Theorem fraction_accepted_partial : forall W k,
   grad_workers_of W (frac_of k W) = Some (Z.of_nat k).
 Proof. exact (fraction_accepted_gen WMAX fractions_WMAX). Qed.
 
+(* the unbounded form: EVERY world size below 2^31 and every divisor k (Proofs/KaisaFloatP.v).  Two correctly
+   rounded operations give |W * fl(k / W) - k| <= k (2u + u^2) with u = 2^-53, which is below 2^-20 < 1e-6 (the
+   tolerance of the repaired test) and below 1/2 (so Python's round() returns k).  Proved through Flocq's
+   specification of the primitive binary64 operations; depends on the standard library's axioms for primitive
+   floats / 63-bit integers and for the real numbers (listed by Print Assumptions below). *)
+Theorem fraction_accepted : forall W k,
+  0 < k -> 0 < W -> (Z.of_nat W < 2 ^ 31)%Z -> W mod k = 0 ->
+  grad_workers_of W (frac_of k W) = Some (Z.of_nat k).
+Proof. exact KaisaFloatP.fraction_accepted_l. Qed.
+
 Example wmax_is_4096 : N.of_nat WMAX = 4096%N.
 Proof. vm_compute. reflexivity. Qed.
 
@@ -87,3 +98,4 @@ Print Assumptions inv_workers_in_one_column.
 Print Assumptions src_is_worker_in_my_row.
 Print Assumptions broadcast_flags.
 Print Assumptions fraction_accepted_partial.
+Print Assumptions fraction_accepted.
